@@ -634,7 +634,10 @@ impl Check for C03 {
                 None => Step::Skip,
             };
         }
-        match shrink_step(&case.prog, idx - 1) {
+        if idx == 1 {
+            return if case.module { Step::Candidate(Case { module: false, ..case.clone() }) } else { Step::Skip };
+        }
+        match shrink_step(&case.prog, idx - 2) {
             Step::End => Step::End,
             Step::Skip => Step::Skip,
             Step::Candidate(p) => Step::Candidate(Case { prog: p, ..case.clone() }),
